@@ -9,6 +9,8 @@ from sa.facts import result_sites
 from sa.guards import GuardView, atom_of, names_in
 from sa.index import own_nodes
 from sa.report import Ctx
+
+from .common import generic_sweeps
 from sa.undefined import possibly_undefined
 
 from .sat_common import _enclosing_block
@@ -178,6 +180,7 @@ def run(ctx: Ctx):
     ops_d = [n for n in own_nodes(sv.node) if isinstance(n, (ast.Assign, ast.AnnAssign)) and ast.unparse(n.targets[0] if isinstance(n, ast.Assign) else n.target) == "destroy_ops"]
     used = ast.unparse(ops_d[0].value) if ops_d else ""
     ctx.ob("C18-O4", "R18 table", sv, "the search uses the exported removal and insertion operators", all(x in ast.unparse(sv.node) for x in REMOVALS + INSERTIONS), "", node=sv.node)
+    generic_sweeps(ctx)
 
 
 # ---------------------------------------------------------------------------------------------
